@@ -13,6 +13,7 @@ from ..simdrv import Vars, run_sim, sym_env
 from ..sym import SymInt, SymTable, to_bv
 
 PROP = 'C18'
+TIMEOUT_MS = {'quick': 60000, 'thorough': 1500000}    # the two full-circuit AES queries need minutes
 LEVEL = 'model_checking'
 ASSUMPTIONS = [
     'lemma (1): every AES ROM table equals its GF(2^8) definition for all 256 addresses (rcon: indices 1..10) — proved per '
